@@ -116,7 +116,18 @@ def instrument(cls, gamma_names):
     return Instrumented
 
 
-def run_execution(sess, xid, kind, params, gname, calls, plan, thread_log):
+def _lib_tracer(sch, th, counter=None):
+    """sys.settrace hook: every Python function call inside the library is a yield point (no event is logged)."""
+    def tracer(frame, event, arg):
+        if event == "call" and "/openskill/" in frame.f_code.co_filename:
+            if counter is not None:
+                counter[0] += 1
+            sch.yield_point(th)
+        return None
+    return tracer
+
+
+def run_execution(sess, xid, kind, params, gname, calls, plan, thread_log, fine=False, counter=None):
     """One execution: the calls run sequentially on a fresh model (base), then concurrently, one thread each,
     on one shared instrumented model (same).  calls = [dict(op, vals, kw)].  Appends the thread events to thread_log."""
     from drivers import make_teams
@@ -145,6 +156,9 @@ def run_execution(sess, xid, kind, params, gname, calls, plan, thread_log):
     def body(th):
         c = calls[th]
         _tls.sched, _tls.th = sch, th
+        if fine:
+            import sys as _sys
+            _sys.settrace(_lib_tracer(sch, th, counter if th == 0 else None))
         try:
             sch.yield_point(th)
             sch.record(th, "begin", arg=str(c["kw"].get("limit_sigma", "none")))
@@ -162,6 +176,9 @@ def run_execution(sess, xid, kind, params, gname, calls, plan, thread_log):
         except BaseException as exc:  # noqa: BLE001
             errors.append(repr(exc))
         finally:
+            if fine:
+                import sys as _sys
+                _sys.settrace(None)
             _tls.sched = None
             sch.finish(th)
 
@@ -181,7 +198,8 @@ def run_execution(sess, xid, kind, params, gname, calls, plan, thread_log):
         if c["op"] == "rate":
             ev = {"op": "rate", "model0": dict(shared.constructed, id=shared.id), "model": model_before, "teams": pre[th],
                   "ranks": sess.enc(kw.get("ranks")), "scores": sess.enc(kw.get("scores")), "tau": sess.enc(kw.get("tau")),
-                  "limit": sess.enc(kw.get("limit_sigma"))}
+                  "limit": sess.enc(kw.get("limit_sigma")),
+                  "ranks_after": sess.enc(kw.get("ranks")), "scores_after": sess.enc(kw.get("scores"))}
         else:
             ev = {"op": c["op"], "model0": dict(shared.constructed, id=shared.id), "model": model_before, "teams": pre[th]}
         ev["out"] = {"kind": kind_, "exc": exc, "value": sess.enc(val)}
